@@ -24,6 +24,11 @@ def _check_if_redundant_slice(
     """If the starts is 0, and the ends is equal to or grater than the shape of the specified axis, then the slice is redundant."""
     del context  # Reserved for future extensions
 
+    if any(value.is_graph_input() for value in (starts, ends, axes, steps)):
+        # An input with a default value can be overridden by the caller.
+        logger.info("The value 'start', 'end', 'axis', 'step' is a graph input.")
+        return False
+
     starts_const = starts.const_value
     ends_const = ends.const_value
     axes_const = axes.const_value
